@@ -596,6 +596,30 @@ def old(env, argnodes):
 
 
 @ghost()
+def extras_prefix(env, target, source, i):
+    """generated `for key in set(d) - known: extra[key] = d[key]`: after i iterations `extra` holds exactly the first i
+    unprobed keys of d with their values"""
+    from .builtins_theory import to_symbolic_dict
+    h = env.st.heap[target.d]
+    if h.pairs is not None:
+        to_symbolic_dict(env.interp, env.st, h)
+    node = source.d
+    ii = env.to_int(i)
+    j = z3.Int("ej!")
+    j2 = z3.Int("ej2!")
+    x = z3.Const("ex!", T.Val)
+    return z3.And(
+        h.kn == ii,
+        z3.ForAll([x], z3.Implies(z3.Select(h.has, x),
+                                  z3.Exists([j2], z3.And(j2 >= 0, j2 < ii, T.F_keyat(node.exkeys, j2) == x)))),
+        z3.ForAll([j], z3.Implies(z3.And(j >= 0, j < ii),
+                                  z3.And(z3.Select(h.karr, j) == T.F_keyat(node.exkeys, j),
+                                         z3.Select(h.has, T.F_keyat(node.exkeys, j)),
+                                         z3.Select(h.vals, T.F_keyat(node.exkeys, j)) == T.F_valat(node.exkeys, j))),
+                  patterns=[T.F_keyat(node.exkeys, j)]))
+
+
+@ghost()
 def dict_key(env, d, i):
     h = env.st.heap[d.d]
     if h.pairs is not None:
